@@ -1,0 +1,102 @@
+//go:build verif
+
+package app
+
+// Verification hooks. Compiled only with `-tags verif`; verif_off.go holds the
+// no-op twins used by every normal build. Call sites are added lines only.
+
+import (
+	"time"
+
+	"github.com/f1bonacc1/process-compose/src/command"
+	"github.com/f1bonacc1/process-compose/src/types"
+)
+
+// VerifHookSet is the set of callbacks a monitoring harness may install.
+// Every field may be nil.
+type VerifHookSet struct {
+	// Commander may return a replacement commander for the launch of p
+	// (nil = use the real one).
+	Commander func(p *Process) command.Commander
+	// Instance is called once for every Process object created by runProcess,
+	// before it is registered as running.
+	Instance func(p *Process)
+	// State is called for every status write, with stateMtx held.
+	State func(p *Process, status string)
+	// Health is called after every direct write of the health field.
+	Health func(p *Process, health string)
+	// Backoff may replace the restart back-off (seconds -> duration).
+	Backoff func(seconds int) (time.Duration, bool)
+	// Yield is called at named check-then-act windows.
+	Yield func(point string, name string)
+}
+
+var VerifHooks VerifHookSet
+
+func verifCommander(p *Process) command.Commander {
+	if f := VerifHooks.Commander; f != nil {
+		return f(p)
+	}
+	return nil
+}
+
+func verifInstance(p *Process) {
+	if f := VerifHooks.Instance; f != nil {
+		f(p)
+	}
+}
+
+func verifStateChange(p *Process, state string) {
+	if f := VerifHooks.State; f != nil {
+		f(p, state)
+	}
+}
+
+func verifHealth(p *Process) {
+	if f := VerifHooks.Health; f != nil {
+		f(p, p.procState.Health)
+	}
+}
+
+func verifBackoff(seconds int) (time.Duration, bool) {
+	if f := VerifHooks.Backoff; f != nil {
+		return f(seconds)
+	}
+	return 0, false
+}
+
+func verifYield(point string, name string) {
+	if f := VerifHooks.Yield; f != nil {
+		f(point, name)
+	}
+}
+
+// Accessors for the harness (read-only views).
+
+func (p *Process) VerifName() string { return p.procConf.ReplicaName }
+
+func (p *Process) VerifConf() *types.ProcessConfig { return p.procConf }
+
+func (p *Process) VerifExecutable() string { return p.procConf.Executable }
+
+func (p *Process) VerifArgs() []string { return p.mergeExtraArgs() }
+
+// VerifStateUnlocked reads status, health and exit code without taking
+// stateMtx (for use inside the State hook, which runs under it).
+func (p *Process) VerifStateUnlocked() (status string, health string, exitCode int, restarts int) {
+	return p.procState.Status, p.procState.Health, p.getExitCode(), p.procState.Restarts
+}
+
+// VerifRunCtxDone reports whether the instance's run context was cancelled.
+func (p *Process) VerifRunCtxDone() bool { return p.procRunCtx.Err() != nil }
+
+// VerifRunning lists the names registered as running.
+func (p *ProjectRunner) VerifRunning() []string {
+	p.runProcMutex.Lock()
+	defer p.runProcMutex.Unlock()
+	names := make([]string, 0, len(p.runningProcesses))
+	for n := range p.runningProcesses {
+		names = append(names, n)
+	}
+	return names
+}
